@@ -149,10 +149,12 @@ class ConcatenationOperator(Operator):
         # Take the modulus from each child and find all combinations.
         # The computational complexity is tightly bounded because the cardinality of the modulus set is less than
         # the bit length operand.
-        mods = [ch.modulo(divisor) for ch in self._children]
-        prod = itertools.product(*mods)
-        sums = set(map(sum, prod))
-        return {x % divisor for x in sums}
+        # The operands are folded in one by one, so that no more than divisor**2 sums are formed per operand
+        # (the Cartesian product of all operands at once grows exponentially with their number).
+        out = {0}  # type: typing.Set[int]
+        for ch in self._children:
+            out = {sum(el) % divisor for el in itertools.product(out, ch.modulo(divisor))}
+        return out
 
     @property
     def min(self) -> int:
@@ -163,7 +165,10 @@ class ConcatenationOperator(Operator):
         return sum(x.max for x in self._children)
 
     def expand(self) -> typing.Set[int]:
-        return {sum(el) for el in itertools.product(*(x.expand() for x in self._children))}
+        out = {0}  # type: typing.Set[int]
+        for ch in self._children:  # Folded in one by one for the same reason as in modulo().
+            out = {sum(el) for el in itertools.product(out, ch.expand())}
+        return out
 
     @property
     def children(self) -> typing.Sequence[Operator]:
